@@ -11,7 +11,6 @@ import (
 
 	"github.com/filecoin-project/go-f3/certs"
 	"github.com/filecoin-project/go-f3/gpbft"
-	"github.com/filecoin-project/go-f3/verifh/vsig"
 )
 
 // Finding is one refuting observation made by a monitor.
@@ -766,7 +765,7 @@ func (m *Monitor) checkDecisionProof(h *host, d *gpbft.Justification) {
 		bad("decision cannot be turned into a finality certificate", map[string]any{"err": err.Error()})
 		return
 	}
-	ni, chain, npt, err := certs.ValidateFinalityCertificates(vsig.Backend{}, NetworkName, cur, inst, nil, cert)
+	ni, chain, npt, err := certs.ValidateFinalityCertificates(w.Sc.Sig(), NetworkName, cur, inst, nil, cert)
 	if err != nil {
 		bad("certificate built from the decision is rejected by certificate validation", map[string]any{"err": err.Error()})
 		return
